@@ -9,7 +9,11 @@
 package main
 
 import (
+	"bytes"
 	"context"
+	"encoding/json"
+	"os"
+	"os/exec"
 	"crypto/ecdsa"
 	"crypto/elliptic"
 	"crypto/rand"
@@ -370,6 +374,11 @@ func buildConfigs(o *h.Opts, rnd *h.Rand) []config {
 		calls := []string{"Basic256:2", srvx.PolicyPrefix + "Basic256:2", "Bogus:3", srvx.PolicyPrefix + "None:1", "None:1", "basic256:2"}
 		cfgs = append(cfgs, config{Name: "spellings", Intent: ps, Calls: calls})
 	}
+	// pairs EnableSecurity accepts although no client can use them: None with a signing mode
+	{
+		ps := []pair{{"None", 1}, {"None", 2}, {"Basic256", 3}}
+		cfgs = append(cfgs, config{Name: "odd-pairs", Intent: ps, Calls: callsOf(ps)})
+	}
 	for i := 0; i < o.N(2, 24); i++ {
 		var ps []pair
 		for _, p := range all {
@@ -428,6 +437,7 @@ func rowsOf(eps []*ua.EndpointDescription) []epRow {
 }
 
 type cfgResult struct {
+	Crash     string // the process that ran this configuration's server died: last probe and panic text
 	Cfg       config
 	Err       string
 	Enabled   []pair   // cfg.enabledSec as the server holds it
@@ -462,8 +472,10 @@ func runConfig(c config, probes []probe, id *ids) *cfgResult {
 	res.Endpoints = rowsOf(inst.S.Endpoints())
 
 	for _, p := range probes {
+		fmt.Fprintf(os.Stderr, "PROBE %s\n", p.String())
 		res.Out = append(res.Out, runProbe(inst, id, p))
 	}
+	fmt.Fprintf(os.Stderr, "PROBE (after the probes)\n")
 
 	// GetEndpoints through a channel with the first enabled pair
 	// (a server that enabled nothing accepts no channel: nothing to ask)
@@ -496,6 +508,89 @@ func runConfig(c config, probes []probe, id *ids) *cfgResult {
 		res.Witness = witness(inst)
 	}
 	return res
+}
+
+const childEnv = "VERIF_C30_CHILD"
+
+type childJob struct {
+	Cfg    config
+	Probes []probe
+	Keys   string
+}
+
+// maybeChild: every configuration's server runs in a child process of the runner, so that a
+// server that dies (a panic in a connection goroutine) is a reportable outcome.
+func maybeChild() {
+	js := os.Getenv(childEnv)
+	if js == "" {
+		return
+	}
+	srvx.Quiet()
+	var job childJob
+	if err := json.Unmarshal([]byte(js), &job); err != nil {
+		fmt.Fprintln(os.Stderr, "bad job:", err)
+		os.Exit(3)
+	}
+	id, err := loadIDs(job.Keys)
+	if err != nil {
+		fmt.Fprintln(os.Stderr, "keys:", err)
+		os.Exit(3)
+	}
+	res := runConfig(job.Cfg, job.Probes, id)
+	b, _ := json.Marshal(res)
+	os.Stdout.Write(b)
+	os.Exit(0)
+}
+
+func loadIDs(keys string) (*ids, error) {
+	srvKey, err := h.LoadKey(keys, 2048, "a")
+	if err != nil {
+		return nil, err
+	}
+	clKey, err := h.LoadKey(keys, 2048, "b")
+	if err != nil {
+		return nil, err
+	}
+	return &ids{srv: srvKey, cl: &srvx.Identity{Key: clKey.Key, Cert: clKey.CertDER}, other: clKey.CertDER, nonRSA: makeNonRSACert()}, nil
+}
+
+func runConfigChild(c config, probes []probe, keys string) *cfgResult {
+	js, _ := json.Marshal(childJob{c, probes, keys})
+	ctx, cancel := context.WithTimeout(context.Background(), 10*time.Minute)
+	defer cancel()
+	cmd := exec.CommandContext(ctx, os.Args[0])
+	cmd.Env = append(os.Environ(), childEnv+"="+string(js), "GOTRACEBACK=single")
+	var out, errb bytes.Buffer
+	cmd.Stdout, cmd.Stderr = &out, &errb
+	runErr := cmd.Run()
+	res := new(cfgResult)
+	if runErr == nil && json.Unmarshal(out.Bytes(), res) == nil {
+		return res
+	}
+	// the process died: which probe was it working on, and why
+	last, msg := "?", ""
+	for _, l := range strings.Split(errb.String(), "\n") {
+		if strings.HasPrefix(l, "PROBE ") {
+			last = strings.TrimPrefix(l, "PROBE ")
+		}
+		if (strings.HasPrefix(l, "panic: ") || strings.HasPrefix(l, "fatal error: ")) && msg == "" {
+			msg = l
+		}
+	}
+	res = &cfgResult{Cfg: c, Probes: probes, GetEP: map[string][]epRow{}}
+	if msg == "" {
+		res.Err = fmt.Sprintf("child process: %v: %s", runErr, tail(errb.String(), 300))
+		return res
+	}
+	res.Crash = fmt.Sprintf("%s [%s]", last, msg)
+	return res
+}
+
+func tail(s string, n int) string {
+	if len(s) > n {
+		return s[len(s)-n:]
+	}
+	return s
 }
 
 func getepURLs(urls []string) []string {
@@ -575,6 +670,12 @@ func evaluate(r *h.Result, d *h.Driver, res *cfgResult) {
 	tag := "E=" + strings.ReplaceAll(pairsStr(c.Intent), " ", ",")
 	if res.Err != "" {
 		r.InfraError = c.Name + ": " + res.Err
+		return
+	}
+	if res.Crash != "" {
+		r.Count(tag+" crash", true)
+		r.Fail(tag+" P="+strings.Fields(res.Crash)[0], "", fmt.Sprintf("the server process (enabled {%s}) died while the runner was at probe %s", pairsStr(c.Intent), res.Crash))
+		r.Hit("server-crash")
 		return
 	}
 	r.Hit("config:" + strings.SplitN(c.Name, "-", 2)[0])
@@ -685,6 +786,7 @@ func evaluate(r *h.Result, d *h.Driver, res *cfgResult) {
 }
 
 func main() {
+	maybeChild()
 	o := h.ParseOpts()
 	srvx.Quiet()
 	r := h.NewResult("C30", o)
@@ -697,20 +799,6 @@ func main() {
 	defer d.Close()
 	rnd := h.NewRand(o.Seed)
 	r.Rule = "case = (enabled set, OpenSecureChannel request): real in-process server per enabled set (all singletons, complements, full, empty, spellings, seeded random subsets) x requests for all 11 valid pairs through the real uasc client channel and as hand-built chunks, plus irregular requests (policy None with signing modes, secure policy with mode None / invalid modes, unsupported or empty URI, plain or wrongly encrypted body under a secure policy, missing / unparsable / non-RSA certificate, protocol version, authentication token); outcome observed in the server's channel table; also EnableSecurity results, Endpoints() and GetEndpoints answers; distinct by (enabled set, request)"
-
-	srvKey, err := h.LoadKey(o.Keys, 2048, "a")
-	if err != nil {
-		r.InfraError = "keys: " + err.Error()
-		r.Write(o.Out)
-		return
-	}
-	clKey, err := h.LoadKey(o.Keys, 2048, "b")
-	if err != nil {
-		r.InfraError = "keys: " + err.Error()
-		r.Write(o.Out)
-		return
-	}
-	id := &ids{srv: srvKey, cl: &srvx.Identity{Key: clKey.Key, Cert: clKey.CertDER}, other: clKey.CertDER, nonRSA: makeNonRSACert()}
 
 	var cfgs []config
 	var probeSets [][]probe
@@ -764,6 +852,10 @@ func main() {
 			}
 		}
 		for _, c := range buildConfigs(o, rnd) {
+			if len(c.Intent) == 0 {
+				// server.New without any (supported) EnableSecurity option offers None / None
+				c.Intent = []pair{{"None", 1}}
+			}
 			cfgs = append(cfgs, c)
 			probeSets = append(probeSets, probesFor(rnd, o.Thorough()))
 		}
@@ -780,7 +872,7 @@ func main() {
 		go func(i int) {
 			defer wg.Done()
 			defer func() { <-sem }()
-			results[i] = runConfig(cfgs[i], probeSets[i], id)
+			results[i] = runConfigChild(cfgs[i], probeSets[i], o.Keys)
 		}(i)
 	}
 	wg.Wait()
